@@ -89,6 +89,7 @@ class Sandbox:
         for c in COMMANDS:
             shutil.copy(fake, os.path.join(self.bin, c))
         self._seen = 0
+        self.base = BASE_TIME     # logical time 0 is this many seconds after the epoch
         self.reset()
 
     # -- lifecycle ---------------------------------------------------------
@@ -132,7 +133,7 @@ class Sandbox:
             os.makedirs(os.path.dirname(p), exist_ok=True)
             with open(p, "w") as f:
                 f.write(content if content is not None else "content of %s\n" % rel)
-        os.utime(p, (BASE_TIME + mtime, BASE_TIME + mtime))
+        os.utime(p, (self.base + mtime, self.base + mtime))
 
     def mtime(self, rel):
         try:
@@ -158,6 +159,9 @@ class Sandbox:
             for name in fn:
                 p = os.path.join(dp, name)
                 rel = os.path.relpath(p, self.proj)
+                if os.path.islink(p):
+                    snap[rel] = "link:%s:%s" % (os.readlink(p), os.path.exists(p))
+                    continue
                 st = os.stat(p)
                 with open(p, "rb") as f:
                     data = f.read()
@@ -429,6 +433,17 @@ def parse_submission(call):
     if out["bad"]:
         out["deps"] = ["?" + out["bad"]]
     return out
+
+
+def pattern_for(name, style):
+    """A name pattern that matches exactly `name` among our target names, in each fnmatch syntax form."""
+    if style == 1 and len(name) > 1:
+        return "[%s]%s" % (name[0], name[1:])          # character class
+    if style == 2 and len(name) > 2:
+        return name[:-1] + "?"                           # single-character wildcard
+    if style == 3 and len(name) > 2:
+        return name[:2] + "[!#]" + name[3:]              # negated class
+    return name
 
 
 def parse_status_table(text):
